@@ -179,7 +179,9 @@ where
                 );
             }
             Err(e) => {
+                // rendered (and hydrated) like `()`: a marker, after which comes the next child
                 buf.push_str("<!>");
+                *position = Position::NextChild;
                 throw_error::throw(e);
             }
         }
@@ -205,6 +207,7 @@ where
             ),
             Err(e) => {
                 buf.push_sync("<!>");
+                *position = Position::NextChild;
                 throw_error::throw(e);
             }
         }
